@@ -62,7 +62,7 @@ check("C05",
       "killed under the address-space cap is re-run under a high cap and judged by exit status and RSS. Interpreter "
       "crashes found this way and repaired in /repo: stale failed decoder, BCJ coder properties (CPython lzma NULL "
       "dereference); open finding F23: pyppmd's decoder crashes nondeterministically when the header declares more "
-      "output than the stream holds. Partial: wall time and RSS are observations.",
+      "output than the stream holds. Partial: wall time and RSS are observations. Round-g/i additions: self-referential and nested encoded headers, encoded headers declaring gigabytes, oversized pack sizes with pack CRCs, quadratic bind-pair tables, 7zAES property sweep with a password, a two-decoder chain (LZMA then BCJ) whose stream expands to 512 MiB behind a declared kilobyte.",
       "Lean 4 termination proof by lexicographic measure over a decoder-parametric model + differential correspondence + sandboxed mutation exploration",
       "DESIGN.md §4 C05")
 check("C20",
@@ -85,7 +85,7 @@ check("C12",
       "running real sessions (all disciplined sequences <=3/4 calls + sampled longer + undisciplined ones) on single/"
       "multi-folder, plain/encrypted archives by path and stream and comparing every call's result (slices -> "
       "checksums) with the model; each result is also compared directly with a fresh open; archive SHA-256 and stream "
-      "method trace checked for sessions ended by close/context exit/exception.",
+      "method trace checked for sessions ended by close/context exit/exception. Round-i addition: sessions that extract into the archive's own directory a member named like the archive - directly, under an alias (symbolic / hard link) of the archive, and through a directory link the archive itself carries.",
       "Lean 4 invariant proof over a session state machine + differential correspondence of real sessions + direct repeatability exploration",
       "DESIGN.md §4 C12")
 
@@ -215,7 +215,7 @@ check("C11",
       "every canonical and compatibility equivalent of the right one as a WRONG password, create and append sessions on "
       "bases with plain / encoded / encrypted headers, append sessions opened with a wrong password (must not destroy), an "
       "independent KDF decrypts with the original password. Partial: secrecy of AES-CBC, RNG quality and KDF strength "
-      "are outside any model here.",
+      "are outside any model here. Round-i addition: every setter sequence in which an encoded header is asked for after header encryption (theorem encoded_on_keeps_encryption).",
       "Lean 4 invariant proof of the AES residue buffers + injectivity of the key material + decision-logic theorems + differential correspondence + leak/IV/password exploration",
       "DESIGN.md §4 C11, §9.11")
 
